@@ -105,7 +105,16 @@ enum Exp {
 }
 
 /// reference: expected events per observer per step, live-observer count per step
-fn reference(kind: SubjKind, h: &[Call]) -> (Vec<Vec<Exp>>, Vec<Option<usize>>, u64) {
+/// how an observer is attached to the subject
+#[derive(Clone, Copy, Debug, PartialEq)]
+pub enum Attach {
+  Direct,
+  Map,
+  /// through take(1): the observer ends by itself with its first item, possibly during the hand-over
+  Take1,
+}
+
+fn reference(kind: SubjKind, attach: Attach, h: &[Call]) -> (Vec<Vec<Exp>>, Vec<Option<usize>>, u64) {
   let n_obs = h.iter().filter(|c| matches!(c, Call::Sub(_) | Call::NextNested(..))).count();
   let mut live: Vec<usize> = vec![];
   let mut items: Vec<i64> = vec![];
@@ -118,6 +127,9 @@ fn reference(kind: SubjKind, h: &[Call]) -> (Vec<Vec<Exp>>, Vec<Option<usize>>, 
   let mut counts = vec![];
   let mut permissive = 0u64;
   let mut count_known = true;
+  // Take1: observers that have had their item; observers of which the reference cannot tell
+  let mut ended: Vec<bool> = vec![false; n_obs];
+  let mut unsure: Vec<bool> = vec![false; n_obs];
   for c in h {
     let mut exp: Vec<Exp> = vec![Exp::Exactly(vec![]); n_obs];
     match c {
@@ -212,6 +224,46 @@ fn reference(kind: SubjKind, h: &[Call]) -> (Vec<Vec<Exp>>, Vec<Option<usize>>, 
         live.clear();
       }
     }
+    if attach == Attach::Take1 {
+      let take1 = |v: &Vec<Ev>| -> (Vec<Ev>, bool) {
+        match v.first() {
+          Some(Ev::N(_)) => (vec![v[0].clone(), Ev::C], true),
+          _ => (v.clone(), false),
+        }
+      };
+      for o in 0..n_obs {
+        if unsure[o] {
+          exp[o] = Exp::Anything;
+          continue;
+        }
+        if ended[o] {
+          exp[o] = Exp::Exactly(vec![]);
+          continue;
+        }
+        match exp[o].clone() {
+          Exp::Exactly(v) => {
+            let (w, e) = take1(&v);
+            exp[o] = Exp::Exactly(w);
+            if e {
+              ended[o] = true;
+              live.retain(|x| *x != o);
+            }
+          }
+          Exp::OneOf(vs) => {
+            let ws: Vec<(Vec<Ev>, bool)> = vs.iter().map(take1).collect();
+            if ws.iter().any(|w| w.1) {
+              unsure[o] = true;
+              count_known = false;
+            }
+            exp[o] = Exp::OneOf(ws.into_iter().map(|w| w.0).collect());
+          }
+          Exp::Anything => {
+            unsure[o] = true;
+            count_known = false;
+          }
+        }
+      }
+    }
     steps.push(exp);
     counts.push(if count_known { Some(live.len()) } else { None });
   }
@@ -224,7 +276,7 @@ struct RealOut {
   fault: Option<String>,
 }
 
-fn run_real(kind: SubjKind, via_map: bool, h: &[Call]) -> RealOut {
+fn run_real(kind: SubjKind, via_map: Attach, h: &[Call]) -> RealOut {
   let n_obs = h.iter().filter(|c| matches!(c, Call::Sub(_) | Call::NextNested(..))).count();
   let log: Arc<Mutex<Vec<(usize, usize, Ev)>>> = Arc::new(Mutex::new(vec![]));
   let step = Arc::new(AtomicUsize::new(0));
@@ -239,13 +291,17 @@ fn run_real(kind: SubjKind, via_map: bool, h: &[Call]) -> RealOut {
     fn subscribe_obs(
       i: usize,
       sbj: &AnySubject,
-      via_map: bool,
+      via_map: Attach,
       log: &Arc<Mutex<Vec<(usize, usize, Ev)>>>,
       step: &Arc<AtomicUsize>,
       subs: &Arc<Mutex<Vec<Option<Subscription<'static>>>>>,
       armed: &Arc<Mutex<Option<(usize, usize)>>>,
     ) {
-      let o = if via_map { sbj.observable().map(|x| x) } else { sbj.observable() };
+      let o = match via_map {
+        Attach::Direct => sbj.observable(),
+        Attach::Map => sbj.observable().map(|x| x),
+        Attach::Take1 => sbj.observable().take(1),
+      };
       let (l1, l2, l3) = (log.clone(), log.clone(), log.clone());
       let (s1, s2, s3) = (step.clone(), step.clone(), step.clone());
       let (sbj2, log2, step2, subs2, armed2) = (sbj.clone(), log.clone(), step.clone(), subs.clone(), armed.clone());
@@ -333,13 +389,13 @@ pub fn check(tier: &str) -> Report {
           }
           let h = &hs[i];
           for kind in kinds {
-            let (exp, counts, p) = reference(kind, h);
-            perm += p;
-            for via_map in [false, true] {
+            for via_map in [Attach::Direct, Attach::Map, Attach::Take1] {
+              let (exp, counts, p) = reference(kind, via_map, h);
+              perm += p;
               let real = run_real(kind, via_map, h);
               runs += 1;
               steps += h.len() as u64;
-              let name = format!("{:?}Subject{}", kind, if via_map { ".map" } else { "" });
+              let name = format!("{:?}Subject{}", kind, match via_map { Attach::Direct => "", Attach::Map => ".map", Attach::Take1 => ".take(1)" });
               let mut add = |class: &str, detail: String| {
                 let e = local.entry(format!("{}/{}", name, class)).or_insert((format!("{} | history: [{}]", detail, show(h)), 0));
                 e.1 += 1;
@@ -402,7 +458,7 @@ pub fn check(tier: &str) -> Report {
   r.samples.push(s(format!("history: [{}]", show(&hs[hs.len() / 2]))));
   r.samples.push(s(format!("history: [{}]", show(&hs[hs.len() - 1]))));
   r.extra.push(("histories".into(), J::I(hs.len() as i64)));
-  r.extra.push(("subject_types_x_attachment".into(), J::I(8)));
+  r.extra.push(("subject_types_x_attachment".into(), J::I(12)));
   r.extra.push(("nontrivial_runs".into(), J::I(nontriv as i64)));
   r.extra.push(("permissive_cases".into(), J::I(perm as i64)));
   r.extra.push(("explanation".into(), s("states = nodes of the call-sequence tree visited (one per call of every run + the initial state); transitions = calls executed on a fresh real subject; every run is compared stepwise and per observer with the reference state machine")));
